@@ -76,41 +76,39 @@ Proof. exact (@load_cert_dispatch_iff). Qed.
 
 (* version 1: saving and loading again yields the identical certificate *)
 Theorem C16_v1_roundtrip :
-  forall (b64_norm key_norm : str -> option str) (m : obj) (c : cert),
+  forall (b64_norm : str -> option str) (m : obj) (c : cert),
          parse_cert b64_norm 1 m = LOk c ->
-         exists j : json, cert_to_json key_norm c = Some j /\ load_cert b64_norm j = LOk c.
+         exists j : json, cert_to_json c = Some j /\ load_cert b64_norm j = LOk c.
 Proof. exact (@v1_roundtrip). Qed.
 
 (* ... hence the same verdicts and values *)
 Theorem C16_v1_roundtrip_verdicts :
-  forall (b64_norm key_norm : str -> option str) (link : celem -> certifier -> bool) 
+  forall (b64_norm : str -> option str) (link : celem -> certifier -> bool) 
            (m : obj) (c : cert),
          parse_cert b64_norm 1 m = LOk c ->
          exists (j : json) (c' : cert),
-           cert_to_json key_norm c = Some j /\
+           cert_to_json c = Some j /\
            load_cert b64_norm j = LOk c' /\
            c_targets c' = c_targets c /\ validate_all link c' = validate_all link c.
 Proof. exact (@v1_roundtrip_verdicts). Qed.
 
-(* version 2: saving fails exactly for attestation-key elements with a short message or an undecodable key (known finding) *)
+(* saving never fails: every certificate (version 1 or 2, loaded or built) has a JSON form (since fix 68123f6) *)
+Theorem C16_cert_to_json_total :
+  forall c : cert, exists j : json, cert_to_json c = Some j.
+Proof. exact (@cert_to_json_total). Qed.
+
+(* hence saving fails in no case (the pre-fix characterisation listed short messages and undecodable keys here) *)
 Theorem C16_cert_to_json_v2_none_iff :
-  forall (key_norm : str -> option str) (c : cert),
-         cert_to_json key_norm c = None <->
-         (exists (k : json) (e : celem),
-            In (k, e) (c_elems c) /\
-            ce_kind e = KAttKey /\
-            (fromhex (ce_message e) = None \/
-             key_norm (ce_extra1 e) = None \/
-             (exists mb : bytes, fromhex (ce_message e) = Some mb /\ (Datatypes.length mb < 384)%nat))).
+  forall c : cert, cert_to_json c = None <-> False.
 Proof. exact (@cert_to_json_v2_none_iff). Qed.
 
-(* version 2: for stable elements saving succeeds and the reloaded certificate has the same verdicts for every oracle *)
+(* version 2: saving and loading again gives the same certificate up to renaming table keys by element names, the same verdicts for every link function; the only side condition left is that stored base64 texts are fixed points of the base64 codec *)
 Theorem C16_v2_roundtrip :
-  forall (b64_norm key_norm : str -> option str) (m : obj) (c : cert),
+  forall (b64_norm : str -> option str) (m : obj) (c : cert),
          parse_cert b64_norm 2 m = LOk c ->
-         (forall (k : json) (e : celem), In (k, e) (c_elems c) -> v2_stable b64_norm key_norm e) ->
+         (forall (k : json) (e : celem), In (k, e) (c_elems c) -> v2_stable b64_norm e) ->
          exists j : json,
-           cert_to_json key_norm c = Some j /\
+           cert_to_json c = Some j /\
            load_cert b64_norm j =
            LOk {| c_version := 2; c_targets := c_targets c; c_elems := renamed (c_elems c) |} /\
            tbl_equiv (c_elems c) (renamed (c_elems c)) /\
@@ -119,5 +117,35 @@ Theorem C16_v2_roundtrip :
               {| c_version := 2; c_targets := c_targets c; c_elems := renamed (c_elems c) |} =
             validate_all link c).
 Proof. exact (@v2_roundtrip). Qed.
+
+(* with an idempotent base64 codec (b64encode(b64decode(.)) is), no side condition at all *)
+Theorem C16_v2_roundtrip_codec :
+  forall (b64_norm : str -> option str) (m : obj) (c : cert),
+         b64_idempotent b64_norm ->
+         parse_cert b64_norm 2 m = LOk c ->
+         exists j : json,
+           cert_to_json c = Some j /\
+           load_cert b64_norm j =
+           LOk {| c_version := 2; c_targets := c_targets c; c_elems := renamed (c_elems c) |} /\
+           tbl_equiv (c_elems c) (renamed (c_elems c)) /\
+           (forall link : celem -> certifier -> bool,
+            validate_all link
+              {| c_version := 2; c_targets := c_targets c; c_elems := renamed (c_elems c) |} =
+            validate_all link c).
+Proof. exact (@v2_roundtrip_codec). Qed.
+
+(* any loaded certificate, either version: save then load terminates with a certificate that has the same version, targets, elements (as a table) and the same verdict and value for every target under every link function *)
+Theorem C16_load_save_load :
+  forall (b64_norm : str -> option str) (doc : json) (c : cert),
+         b64_idempotent b64_norm ->
+         load_cert b64_norm doc = LOk c ->
+         exists (j : json) (c' : cert),
+           cert_to_json c = Some j /\
+           load_cert b64_norm j = LOk c' /\
+           c_version c' = c_version c /\
+           c_targets c' = c_targets c /\
+           tbl_equiv (c_elems c) (c_elems c') /\
+           (forall link : celem -> certifier -> bool, validate_all link c' = validate_all link c).
+Proof. exact (@load_save_load). Qed.
 
 Example C16_nonvacuous : True. Proof. exact I. Qed. (* Module Examples / Caveats of Proofs/CertProofs.v: self-signed, mutually signed, dangling signer, missing target rejected; duplicate name last-wins; version forms; v2_attkey_message_truncated exhibits the 385-byte message whose reload differs *)
